@@ -545,6 +545,15 @@ class Engine:
         return vstr(self.reg.render(v))
 
     def ev_Attribute(self, node, st):
+        v_ = node.value
+        if (isinstance(v_, ast.Name) and v_.id not in st.vars and v_.id not in self.bound and self.mod is not None
+                and v_.id in self.mod.imports and self.mod.imports[v_.id][1] is None):
+            # <imported module>.<CONSTANT> (e.g. re.DOTALL): only constants registered with their real value are modelled
+            key = f"{self.mod.imports[v_.id][0]}.{node.attr}"
+            mc = getattr(self.reg, "module_constants", {})
+            if key not in mc:
+                raise OutOfSubset(f"module attribute {key} at line {getattr(node, 'lineno', '?')}")
+            return [(st, mc[key])]
         out = []
         for s, recv in self.ev(node.value, st):
             out += self.getattr(recv, node.attr, s, node)
